@@ -145,9 +145,14 @@ CHECKS = {
              "side; TLC checks PendingImpl = PendingRef and counter sanity over all interleavings of "
              "register / ack for 2 operations x 3 nodes (duplicates, early and foreign acks) and generates "
              "one sequence per (state, event); each sequence is applied to the real register_pending_opp / "
-             "acknowledge_pending_opp and TLC validates pending set, counters and ack results after every call.",
-        note="direct calls on a real Databases; membership stable; end-to-end accounting also observed in cluster runs",
-        technique="TLA+ reference + implementation twin (TLC exhaustive) + TLC trace validation of real calls",
+             "acknowledge_pending_opp and TLC validates pending set, counters and ack results after every call. "
+             "For histories of any length (re-sends make the counters unbounded) Apalache discharges an "
+             "inductive invariant of the same accounting (NunPendingInd: entry present iff some node is "
+             "outstanding; outstanding flags = sent minus acknowledged; rc - ac = number of outstanding nodes).",
+        note="direct calls on a real Databases; membership stable; end-to-end accounting also observed in cluster "
+             "runs; the inductive model restates NunPending's two actions without the history variable",
+        technique="TLA+ reference + implementation twin (TLC exhaustive, Apalache inductive invariant) + TLC trace "
+                  "validation of real calls",
         design="DESIGN.md §5 C15"),
     "C11": dict(
         level="fault_enumeration",
